@@ -1,5 +1,6 @@
 From RsdnsModel Require Import Base Cursor Names Labels Header Tracker RData Reader Client.
-From RsdnsModel.Proofs Require Import ClientProofs.
+From RsdnsModel.Spec Require Import NameText.
+From RsdnsModel.Proofs Require Import NameOrder ClientProofs.
 From RsdnsModel.Properties Require Import C12.
 Open Scope N_scope.
 Check (C12_accept_sound : forall std id qname qtype qclass d fl,
@@ -18,4 +19,9 @@ Check (C12_first_match : forall std id qname qtype qclass ds d fl,
 Check (C12_nothing_accepted : forall std id qname qtype qclass ds,
   udp_receive std id qname qtype qclass ds = Ok None ->
   Forall (fun x => accept_datagram std id qname qtype qclass x = Ok None) ds).
-Print Assumptions C12_accept_sound. Print Assumptions C12_rejects_silently. Print Assumptions C12_first_match. Print Assumptions C12_nothing_accepted.
+Check (C12_accepted_question_is_asked : forall std id qname qtype qclass d fl,
+  accept_datagram std id qname qtype qclass d = Ok (Some fl) ->
+  exists r1 hd r2 n, rd_header d (mkReader (c_new d) tr_default false) = (r1, Ok (OHeader hd)) /\
+    rd_question d true false r1 = (r2, Ok (OQuestion n qtype qclass)) /\
+    valid_text n = true /\ fold_case n = fold_case (canon_text qname)).
+Print Assumptions C12_accept_sound. Print Assumptions C12_rejects_silently. Print Assumptions C12_first_match. Print Assumptions C12_nothing_accepted. Print Assumptions C12_accepted_question_is_asked.
